@@ -6,6 +6,7 @@ import importlib
 import os
 import sys
 import traceback
+import warnings
 
 
 def main() -> int:
@@ -14,6 +15,7 @@ def main() -> int:
     ap.add_argument("--tier", default=os.environ.get("VERIF_TIER", "quick"), choices=["quick", "thorough"])
     ap.add_argument("--replay", default=None)
     a = ap.parse_args()
+    warnings.simplefilter("ignore")  # checks that care about OdxWarning record them explicitly
     try:
         mod = importlib.import_module(f"harness.checks.{a.prop.lower()}")
     except ModuleNotFoundError:
